@@ -14,6 +14,7 @@ import (
 	"net/url"
 	"os"
 	"path/filepath"
+	"slices"
 	"sort"
 	"strings"
 	"sync"
@@ -233,10 +234,32 @@ func vc13PadLines(sb *strings.Builder, prefix string, pad int) {
 	}
 }
 
+// vc13SvcInvalidEntries are the flavours of the service index that add an
+// entry which (*indexRespService).toInternal refuses: an ID that is not a
+// valid blocked-service ID (bad characters, empty, missing, too long) and a
+// null entry.  The unchanged code then refuses the whole index and keeps the
+// previous services; that is what is asked of it.
+var vc13SvcInvalidEntries = []string{"badid", "emptyid", "longid", "noid", "nilentry"}
+
+// vc13SvcPositions are the places of the additional entry.
+var vc13SvcPositions = []string{"first", "middle", "last"}
+
+// vc13SvcFlavor splits a flavour of the service index into its name and the
+// position of the additional entry ("middle" if none is given).
+func vc13SvcFlavor(f string) (name, pos string) {
+	name, pos, ok := strings.Cut(f, "@")
+	if !ok {
+		pos = "middle"
+	}
+
+	return name, pos
+}
+
 // vc13SvcBody returns a blocked-service index.  The first half of hosts goes
 // to service A, the rest to service B, so the first marker and the last marker
 // live in different services.  flavor adds one entry between them.
 func vc13SvcBody(hosts []string, ver int, flavor string, pad int) (b []byte) {
+	flavor, pos := vc13SvcFlavor(flavor)
 	if flavor == "notjson" {
 		return []byte(fmt.Sprintf("<html><body>maintenance, services v%d</body></html>\n%s", ver, strings.Repeat("x", pad)))
 	}
@@ -250,24 +273,46 @@ func vc13SvcBody(hosts []string, ver int, flavor string, pad int) (b []byte) {
 	}
 
 	mid := (len(hosts) + 1) / 2
-	svcs := []any{map[string]any{"id": string(vc13SvcA), "name": "A", "rules": rules(hosts[:mid])}}
+	svcA := map[string]any{"id": string(vc13SvcA), "name": "A", "rules": rules(hosts[:mid])}
+	svcB := map[string]any{"id": string(vc13SvcB), "name": "B", "rules": rules(hosts[mid:])}
+
+	var extra any
+	hasExtra := true
 	switch flavor {
 	case "", "valid":
-		// Nothing to add.
+		hasExtra = false
 	case "emptyrules":
 		// Valid: a service without rules is reported, not refused.
-		svcs = append(svcs, map[string]any{"id": "vc13_svc_empty", "name": "Empty", "rules": []string{}})
+		extra = map[string]any{"id": "vc13_svc_empty", "name": "Empty", "rules": []string{}}
 	case "badid":
-		svcs = append(svcs, map[string]any{"id": "bad id/x", "name": "Bad", "rules": []string{"||bad-svc.test^"}})
+		extra = map[string]any{"id": "bad id/x", "name": "Bad", "rules": []string{"||bad-svc.test^"}}
+	case "emptyid":
+		extra = map[string]any{"id": "", "name": "NoID", "rules": []string{"||noid-svc.test^"}}
+	case "longid":
+		extra = map[string]any{"id": strings.Repeat("s", 65), "name": "Long", "rules": []string{"||long-svc.test^"}}
+	case "noid":
+		extra = map[string]any{"name": "Missing", "rules": []string{"||missing-svc.test^"}}
 	case "nilentry":
-		svcs = append(svcs, nil)
+		extra = nil
 	case "typeerr":
-		svcs = append(svcs, map[string]any{"id": 7, "name": "Seven", "rules": []string{"||seven-svc.test^"}})
+		extra = map[string]any{"id": 7, "name": "Seven", "rules": []string{"||seven-svc.test^"}}
 	default:
 		panic("vc13: bad svc flavor " + flavor)
 	}
 
-	svcs = append(svcs, map[string]any{"id": string(vc13SvcB), "name": "B", "rules": rules(hosts[mid:])})
+	// The additional entry stands first, between the two valid services, or
+	// last.
+	svcs := []any{svcA, svcB}
+	if hasExtra {
+		switch pos {
+		case "first":
+			svcs = []any{extra, svcA, svcB}
+		case "last":
+			svcs = []any{svcA, svcB, extra}
+		default:
+			svcs = []any{svcA, extra, svcB}
+		}
+	}
 
 	m := map[string]any{"blocked_services": svcs, "vc13_version": ver}
 	if pad > 0 {
@@ -781,7 +826,7 @@ func vc13NewUnits(
 			IndexRefreshTimeout: timeout,
 			IndexStaleness:      stale,
 			RefreshTimeout:      timeout,
-			Staleness:           stale,
+			Staleness:           vc13RuleStaleness,
 			ResultCacheCount:    count,
 			ResultCacheEnabled:  cacheOn,
 		},
@@ -1042,11 +1087,35 @@ func vc13ReadFiles(dir string) (files map[string][]byte, inodes map[string]uint6
 // vc13AgeFiles sets the modification time of every cache file under dir one
 // hour back, so that the next refresh downloads again whatever the wall clock
 // did in between (the harness owns the staleness, not the clock).
-func vc13AgeFiles(dir string) {
+func vc13AgeFiles(dir string) { vc13AgeFilesExcept(dir, nil) }
+
+// vc13RuleStaleness is the staleness interval of the rule lists.  A file that
+// the harness has not aged is fresh for the code: its modification time is
+// the beginning of the refresh that wrote it.
+const vc13RuleStaleness = 10 * time.Minute
+
+// vc13AgeFilesExcept is like vc13AgeFiles but leaves the cache files of the
+// rule lists named in fresh as they are.
+func vc13AgeFilesExcept(dir string, fresh []string) {
 	old := time.Now().Add(-1 * time.Hour)
 	for _, name := range vc13AllFiles() {
+		if s := vc13SlotByFile(name); s != nil && s.kind == vc13KindRule && slices.Contains(fresh, s.name) {
+			continue
+		}
+
 		_ = os.Chtimes(filepath.Join(dir, name), old, old)
 	}
+}
+
+// vc13SlotByFile returns the slot with the given cache file, nil if none.
+func vc13SlotByFile(file string) (s *vc13Slot) {
+	for _, s = range vc13Slots {
+		if s.file == file {
+			return s
+		}
+	}
+
+	return nil
 }
 
 // vc13Strays returns the names in dir that are not cache files.
